@@ -396,7 +396,10 @@ where
 
         // Return error if versions don't match
         if self.protocol_version != packet_version {
-            return vec![GenericEvent::NotifyError(MqttError::VersionMismatch)];
+            return self.refuse_send(
+                Self::exchange_opening_packet_id(&packet),
+                MqttError::VersionMismatch,
+            );
         }
 
         match packet {
@@ -447,28 +450,28 @@ where
                 if role_id == client_id || role_id == any_id {
                     self.process_send_v3_1_1_subscribe(p)
                 } else {
-                    vec![GenericEvent::NotifyError(MqttError::PacketNotAllowedToSend)]
+                    self.refuse_send(Some(p.packet_id()), MqttError::PacketNotAllowedToSend)
                 }
             }
             GenericPacket::V5_0Subscribe(p) => {
                 if role_id == client_id || role_id == any_id {
                     self.process_send_v5_0_subscribe(p)
                 } else {
-                    vec![GenericEvent::NotifyError(MqttError::PacketNotAllowedToSend)]
+                    self.refuse_send(Some(p.packet_id()), MqttError::PacketNotAllowedToSend)
                 }
             }
             GenericPacket::V3_1_1Unsubscribe(p) => {
                 if role_id == client_id || role_id == any_id {
                     self.process_send_v3_1_1_unsubscribe(p)
                 } else {
-                    vec![GenericEvent::NotifyError(MqttError::PacketNotAllowedToSend)]
+                    self.refuse_send(Some(p.packet_id()), MqttError::PacketNotAllowedToSend)
                 }
             }
             GenericPacket::V5_0Unsubscribe(p) => {
                 if role_id == client_id || role_id == any_id {
                     self.process_send_v5_0_unsubscribe(p)
                 } else {
-                    vec![GenericEvent::NotifyError(MqttError::PacketNotAllowedToSend)]
+                    self.refuse_send(Some(p.packet_id()), MqttError::PacketNotAllowedToSend)
                 }
             }
             // SUBACK/UNSUBACK - Server/Any can send
@@ -1584,7 +1587,7 @@ where
         mut packet: v5_0::GenericPublish<PacketIdType>,
     ) -> Vec<GenericEvent<PacketIdType>> {
         if !self.validate_maximum_packet_size_send(packet.size()) {
-            return vec![GenericEvent::NotifyError(MqttError::PacketTooLarge)];
+            return self.refuse_send(packet.packet_id(), MqttError::PacketTooLarge);
         }
 
         let mut events = Vec::new();
@@ -1991,7 +1994,7 @@ where
         packet: v5_0::GenericSubscribe<PacketIdType>,
     ) -> Vec<GenericEvent<PacketIdType>> {
         if !self.validate_maximum_packet_size_send(packet.size()) {
-            return vec![GenericEvent::NotifyError(MqttError::PacketTooLarge)];
+            return self.refuse_send(Some(packet.packet_id()), MqttError::PacketTooLarge);
         }
 
         let mut events = Vec::new();
@@ -2097,7 +2100,7 @@ where
         packet: v5_0::GenericUnsubscribe<PacketIdType>,
     ) -> Vec<GenericEvent<PacketIdType>> {
         if !self.validate_maximum_packet_size_send(packet.size()) {
-            return vec![GenericEvent::NotifyError(MqttError::PacketTooLarge)];
+            return self.refuse_send(Some(packet.packet_id()), MqttError::PacketTooLarge);
         }
 
         let mut events = Vec::new();
@@ -2316,6 +2319,35 @@ where
         });
         self.send_post_process(&mut events);
 
+        events
+    }
+
+    /// Identifier of a packet that opens an exchange (QoS>0 PUBLISH, SUBSCRIBE, UNSUBSCRIBE).
+    fn exchange_opening_packet_id(packet: &GenericPacket<PacketIdType>) -> Option<PacketIdType> {
+        match packet {
+            GenericPacket::V3_1_1Publish(p) => p.packet_id(),
+            GenericPacket::V5_0Publish(p) => p.packet_id(),
+            GenericPacket::V3_1_1Subscribe(p) => Some(p.packet_id()),
+            GenericPacket::V5_0Subscribe(p) => Some(p.packet_id()),
+            GenericPacket::V3_1_1Unsubscribe(p) => Some(p.packet_id()),
+            GenericPacket::V5_0Unsubscribe(p) => Some(p.packet_id()),
+            _ => None,
+        }
+    }
+
+    /// Refuse a send: report the error and release the identifier the packet was holding.
+    fn refuse_send(
+        &mut self,
+        packet_id: Option<PacketIdType>,
+        error: MqttError,
+    ) -> Vec<GenericEvent<PacketIdType>> {
+        let mut events = vec![GenericEvent::NotifyError(error)];
+        if let Some(packet_id) = packet_id {
+            if self.pid_man.is_used_id(packet_id) {
+                self.pid_man.release_id(packet_id);
+                events.push(GenericEvent::NotifyPacketIdReleased(packet_id));
+            }
+        }
         events
     }
 
